@@ -144,7 +144,16 @@ def work(args):
         rec = dict(X=X, Y=Y, same=same)
         try:
             num_a, num_b = R.choice(NUMS), R.choice(NUMS)
-            a, b = build_num(impl, X, num_a), build_num(impl, Y, num_b)
+            a = build_num(impl, X, num_a)
+            if k != 'V' and R.random() < 0.25:
+                # b arrives at its place by an in-place move after having been hashed / compared elsewhere (stale cached hash / derived state)
+                t_ = tuple(F(R.randint(-3, 3)) or F(2) for _ in range(3))
+                b = build_num(impl, gen.translate_obj(Y, tuple(-c for c in t_)), num_b)
+                impl.prime(b)
+                b.move(impl.Vc(t_))
+                rec['arrived_by_move'] = True
+            else:
+                b = build_num(impl, Y, num_b)
             if same and R.random() < 0.3 and k != 'V':      # value recomputed through move-and-back
                 t = impl.Vc(tuple(F(R.randint(-3, 3)) for _ in range(3)))
                 b = copy.deepcopy(b)
@@ -197,6 +206,8 @@ def run(ctx, scale=1):
         key = mtok(X) + ' == ' + mtok(Y)
         ctx.count(key)
         ctx.dist['%s %s' % (X[0], 'same set' if t else 'different sets')] += 1
+        if r.get('arrived_by_move'):
+            ctx.dist['second operand arrived by a primed in-place move'] += 1
         problems = []
         o = r['obs']
         if o[0] != 'ok':
